@@ -12,6 +12,8 @@ import (
 	"golang.org/x/tools/go/ssa"
 )
 
+var _ = os.Stderr
+
 // ---- spec functions ----
 
 type SpecParam struct {
@@ -744,4 +746,89 @@ func (p *Prog) functionTable() *Term {
 	p.fnTable = Select(h, ref)
 	p.fnTableNotes = ex.unsupported
 	return p.fnTable
+}
+
+// ---- lemmas ----
+//
+// A lemma is a universally quantified statement over spec functions. It is proved once as an
+// obligation (variables as fresh constants) *without* using any lemma, and is then available to
+// every query as a quantified fact with the given trigger.
+
+type lemmaInfo struct {
+	l     *Lemma
+	obl   *Obligation
+	axiom *Term
+}
+
+func (p *Prog) buildLemmas() {
+	if p.lemmasBuilt {
+		return
+	}
+	p.lemmasBuilt = true
+	for _, l := range p.cs.Lemmas {
+		ex := &Exec{p: p, fname: "lemma:" + l.Name, nameCt: map[string]int{}, entryParams: map[string]*GVal{}, freshRefs: map[*Term]bool{}}
+		ex.entry = &State{cells: map[*Cell]*Term{}, heap: map[string]*Term{}, ghost: map[string]*Term{}}
+		ex.st = ex.entry.clone()
+		fr := &Frame{ex: ex, vals: map[ssa.Value]*GVal{}, cur: TTrue, dbg: map[string][]ssa.Value{}}
+		env := &Env{fr: fr, vars: map[string]*GVal{}, st: ex.st, old: ex.entry}
+		var consts []*Term
+		var bvars []*Term
+		subst := map[*Term]*Term{}
+		okSorts := true
+		for _, v := range l.Vars {
+			s := sortByName(p.w, p, v[1])
+			if s == nil {
+				okSorts = false
+				continue
+			}
+			c := p.NamedConst(v[0]+"@lemma_"+l.Name, s)
+			consts = append(consts, c)
+			b := mkBoundVar(v[0]+"!l", s)
+			bvars = append(bvars, b)
+			subst[c] = b
+			env.vars[v[0]] = &GVal{T: c, Typ: typeByName(p, v[1])}
+		}
+		if !okSorts {
+			continue
+		}
+		var hyps, concl []*Term
+		for _, h := range l.Hyps {
+			hyps = append(hyps, fr.evalBool(h.Expr, env))
+		}
+		for _, c := range l.Concl {
+			concl = append(concl, fr.evalBool(c.Expr, env))
+		}
+		goal := Implies(And(hyps...), And(concl...))
+		o := &Obligation{Name: "lemma/" + l.Name, Func: "lemma:" + l.Name, Kind: "lemma", Props: l.Props, Facts: []*Term{}, NFacts: 0, Goal: goal, Where: "verif_contracts.go lemma " + l.Name, noLemmas: true}
+		li := &lemmaInfo{l: l, obl: o}
+		body := Subst(goal, subst)
+		if l.Trigger != nil {
+			trig := Subst(fr.evalTerm(l.Trigger, env), subst)
+			li.axiom = mkQuantPat(bvars, body, trig)
+		} else {
+			li.axiom = Forall(bvars, body)
+		}
+		for _, u := range ex.unsupported {
+			fmt.Fprintln(os.Stderr, "lemma", l.Name+":", u)
+		}
+		p.lemmas = append(p.lemmas, li)
+	}
+}
+
+func (p *Prog) lemmaObligations() []*Obligation {
+	p.buildLemmas()
+	var out []*Obligation
+	for _, li := range p.lemmas {
+		out = append(out, li.obl)
+	}
+	return out
+}
+
+func (p *Prog) lemmaAxioms() []*Term {
+	p.buildLemmas()
+	var out []*Term
+	for _, li := range p.lemmas {
+		out = append(out, li.axiom)
+	}
+	return out
 }
